@@ -37,6 +37,10 @@ DefaultCases == {[op |-> "backend_default", operands |-> s, tree |-> Leaf(1), re
 \* default format: class pipeline, user pipeline, then the pipeline of the format that is ASKED FOR
 SwitchCases == {[op |-> "backend_switch", operands |-> s, tree |-> Leaf(1), ref |-> SumSeq([i \in 1..3 |-> Pool[s[i]]])]
                      : s \in (IF Quick THEN RandomSubset(40, Seqs(3)) ELSE Seqs(3))}
+\* ... and the other way round: a conversion in another format first, then convert_rule() WITHOUT a format - the default
+\* format's pipeline is the one that runs
+SwitchBackCases == {[op |-> "backend_switch_back", operands |-> s, tree |-> Leaf(1), ref |-> SumSeq([i \in 1..3 |-> Pool[s[i]]])]
+                     : s \in (IF Quick THEN RandomSubset(40, Seqs(3)) ELSE Seqs(3))}
 ReuseCases == {[op |-> o, operands |-> s, tree |-> Leaf(1),
                 ref |-> IF o = "reuse_operand" THEN Pool[s[1]]
                         ELSE IF o \in {"resolve_twice", "resolve_defs_twice", "resolve_decorated"} THEN Resolve([i \in 1..2 |-> Pool[s[i]]])
@@ -56,7 +60,7 @@ TwiceCases == {[op |-> "sum", operands |-> <<i, i>>, tree |-> Node(Leaf(1), Leaf
 \* names given to the resolver mean the pipelines registered under them, whatever the working directory contains
 \* (the driver resolves inside a directory that has a sub-directory of every name)
 CwdCases == {[op |-> "resolve_cwd", operands |-> s, tree |-> Leaf(1), ref |-> Resolve([i \in 1..2 |-> Pool[s[i]]])] : s \in Seqs(2)}
-ASSUME LET S == SetToSeq(CwdCases \cup TwiceCases \cup AfterUseCases \cup DefaultCases \cup ThirdCases \cup SumCases \cup ResolveCases \cup BackendCases \cup SwitchCases \cup ReuseCases)
+ASSUME LET S == SetToSeq(SwitchBackCases \cup CwdCases \cup TwiceCases \cup AfterUseCases \cup DefaultCases \cup ThirdCases \cup SumCases \cup ResolveCases \cup BackendCases \cup SwitchCases \cup ReuseCases)
        IN  ndJsonSerialize(IOEnv.VERIF_OUT, [i \in 1..Len(S) |-> [id |-> i, pool |-> Pool] @@ S[i]])
 Init == x = 0
 Next == UNCHANGED x
